@@ -117,7 +117,7 @@ func ruleStoreContracts(r *Run) {
 	if r.broken() {
 		return
 	}
-	const T, E = "param:ec.EntityComponentTypeId", "param:ec.EntityId"
+	const T, E = "param:#0.EntityComponentTypeId", "param:#0.EntityId"
 	leaf := "recv.entityComponents[" + T + "]"
 	// Add
 	if fn := r.modelFunc("models.(*EntityComponentStore).Add"); fn != nil {
@@ -152,7 +152,7 @@ func ruleStoreContracts(r *Run) {
 			absent := g["maplookup:"+leaf+"["+E+"]"] == "miss"
 			r.CheckT("S-Add", fn.Name+":registered", registered, fn.Body.Pos(), path, "a component is stored only for a registered component type")
 			r.CheckT("S-Add", fn.Name+":once", absent, fn.Body.Pos(), path, "a component is stored only if (type, entity) is not present yet")
-			r.CheckT("S-Add", fn.Name+":insert", len(leafW) == 1 && leafW[0].Map == leaf && leafW[0].Key == E && leafW[0].Val == "param:ec", fn.Body.Pos(), path,
+			r.CheckT("S-Add", fn.Name+":insert", len(leafW) == 1 && leafW[0].Map == leaf && leafW[0].Key == E && leafW[0].Val == "param:#0", fn.Body.Pos(), path,
 				"an accepted Add stores exactly the given component under its own (type, entity) key")
 		}
 		r.Check("S-Add", fn.Name+":has-success", okPaths >= 1, fn.Body.Pos(), "Add has a success path")
@@ -175,7 +175,7 @@ func ruleStoreContracts(r *Run) {
 			okPaths++
 			present := g["maplookup:"+leaf+"["+E+"]"] == "hit" && g["maplookup:recv.entityComponents["+T+"]"] == "hit"
 			r.CheckT("S-Update", fn.Name+":present", present, fn.Body.Pos(), path, "Update assigns only when the component (type, entity) exists")
-			r.CheckT("S-Update", fn.Name+":assign", len(ops) == 1 && ops[0].Kind == "write" && ops[0].Map == leaf && ops[0].Key == E && ops[0].Val == "param:ec", fn.Body.Pos(), path,
+			r.CheckT("S-Update", fn.Name+":assign", len(ops) == 1 && ops[0].Kind == "write" && ops[0].Map == leaf && ops[0].Key == E && ops[0].Val == "param:#0", fn.Body.Pos(), path,
 				"an accepted Update replaces exactly the component under its own (type, entity) key")
 		}
 		r.Check("S-Update", fn.Name+":has-success", okPaths >= 1, fn.Body.Pos(), "Update has a success path")
@@ -184,7 +184,7 @@ func ruleStoreContracts(r *Run) {
 	if fn := r.modelFunc("models.(*EntityComponentStore).Delete"); fn != nil {
 		paths := r.Paths(fn)
 		r.Analysed(fn, len(paths))
-		inner := "recv.entityComponents[param:entityComponentTypeID]"
+		inner := "recv.entityComponents[param:#0]"
 		for pi := range paths {
 			path := &paths[pi]
 			ops := r.mapOps(fn, path)
@@ -194,9 +194,9 @@ func ruleStoreContracts(r *Run) {
 				r.CheckT("S-Delete", fn.Name+":no-type", len(ops) == 0 && len(ret) == 1 && ret[0] == "false", fn.Body.Pos(), path, "deleting from a type that has no components reports false and changes nothing")
 				continue
 			}
-			okDel := len(ops) == 1 && ops[0].Kind == "delete" && ops[0].Map == inner && ops[0].Key == "param:entityID"
+			okDel := len(ops) == 1 && ops[0].Kind == "delete" && ops[0].Map == inner && ops[0].Key == "param:#1"
 			r.CheckT("S-Delete", fn.Name+":delete", okDel, fn.Body.Pos(), path, "Delete removes exactly the (type, entity) key")
-			okRet := len(ret) == 1 && ret[0] == inner+"[param:entityID]#1"
+			okRet := len(ret) == 1 && ret[0] == inner+"[param:#1]#1"
 			r.CheckT("S-Delete", fn.Name+":reports-presence", okRet, fn.Body.Pos(), path, "Delete reports whether the very key it deletes was present (returns %v)", ret)
 			// the presence test precedes the delete
 			if okDel {
@@ -204,7 +204,7 @@ func ruleStoreContracts(r *Run) {
 				for j := 0; j < ops[0].Idx; j++ {
 					ev := path.Events[j]
 					if ev.Kind == EvAssign && len(ev.Rhs) == 1 {
-						if ix, ok := ast.Unparen(ev.Rhs[0]).(*ast.IndexExpr); ok && r.P.Canon(fn, ix) == inner+"[param:entityID]" {
+						if ix, ok := ast.Unparen(ev.Rhs[0]).(*ast.IndexExpr); ok && r.P.Canon(fn, ix) == inner+"[param:#1]" {
 							before = true
 						}
 					}
@@ -223,7 +223,7 @@ func ruleStoreContracts(r *Run) {
 			r.loopsComplete("S-DeleteByEntity", fn, path)
 			for _, op := range r.mapOps(fn, path) {
 				iter++
-				r.CheckT("S-DeleteByEntity", fn.Name+":delete", op.Kind == "delete" && op.Map == "rangeval(recv.entityComponents)" && op.Key == "param:entityID" && op.Loop, path.Events[op.Idx].Pos, path,
+				r.CheckT("S-DeleteByEntity", fn.Name+":delete", op.Kind == "delete" && op.Map == "rangeval(recv.entityComponents)" && op.Key == "param:#0" && op.Loop, path.Events[op.Idx].Pos, path,
 					"the entity's key is deleted from every per-type map")
 			}
 			// no conditional skip inside the loop
@@ -244,17 +244,17 @@ func ruleStoreContracts(r *Run) {
 			ops := r.mapOps(fn, path)
 			g := r.guardMap(path)
 			ret := r.retCanon(fn, path)
-			switch g["maplookup:recv.idIndex[param:name]"] {
+			switch g["maplookup:recv.idIndex[param:#0]"] {
 			case "hit":
-				r.CheckT("D4", fn.Name+":idempotent", len(ops) == 0 && len(ret) == 1 && ret[0] == "recv.idIndex[param:name]", fn.Body.Pos(), path, "registering a known name returns its existing id and changes nothing (returns %v)", ret)
+				r.CheckT("D4", fn.Name+":idempotent", len(ops) == 0 && len(ret) == 1 && ret[0] == "recv.idIndex[param:#0]", fn.Body.Pos(), path, "registering a known name returns its existing id and changes nothing (returns %v)", ret)
 			case "miss":
 				id := "recv.ids.call:SequentialIDGenerator.New()"
 				var w1, w2 bool
 				for _, op := range ops {
-					if op.Kind == "write" && op.Map == "recv.nameIndex" && op.Key == id && op.Val == "param:name" {
+					if op.Kind == "write" && op.Map == "recv.nameIndex" && op.Key == id && op.Val == "param:#0" {
 						w1 = true
 					}
-					if op.Kind == "write" && op.Map == "recv.idIndex" && op.Key == "param:name" && op.Val == id {
+					if op.Kind == "write" && op.Map == "recv.idIndex" && op.Key == "param:#0" && op.Val == id {
 						w2 = true
 					}
 				}
@@ -278,8 +278,8 @@ func ruleStoreContracts(r *Run) {
 	}
 	// GetTypeName / GetTypeID
 	for _, q := range []struct{ name, idx, key string }{
-		{"models.(*EntityComponentStore).GetTypeName", "recv.nameIndex", "param:entityComponentTypeID"},
-		{"models.(*EntityComponentStore).GetTypeID", "recv.idIndex", "param:entityComponentTypeName"},
+		{"models.(*EntityComponentStore).GetTypeName", "recv.nameIndex", "param:#0"},
+		{"models.(*EntityComponentStore).GetTypeID", "recv.idIndex", "param:#0"},
 	} {
 		fn := r.modelFunc(q.name)
 		if fn == nil {
@@ -303,7 +303,7 @@ func ruleStoreContracts(r *Run) {
 	}
 	// listings: iterate the whole map, append every value
 	for _, q := range []struct{ name, over string }{
-		{"models.(*EntityComponentStore).List", "recv.entityComponents[param:entityComponentTypeID]"},
+		{"models.(*EntityComponentStore).List", "recv.entityComponents[param:#0]"},
 		{"models.(*EntityComponentStore).ListAll", "rangeval(recv.entityComponents)"},
 	} {
 		fn := r.modelFunc(q.name)
@@ -427,7 +427,7 @@ func ruleSubscriptions(r *Run) {
 	if r.broken() {
 		return
 	}
-	const T, P = "param:entityComponentTypeID", "param:participantID"
+	const T, P = "param:#0", "param:#1"
 	subs := "recv.subscriptions[" + T + "]"
 	if fn := r.modelFunc("models.(*EntityComponentStore).Subscribe"); fn != nil {
 		paths := r.Paths(fn)
@@ -485,7 +485,7 @@ func ruleSubscriptions(r *Run) {
 			r.loopsComplete("S-UnsubscribeAll", fn, path)
 			for _, op := range r.mapOps(fn, path) {
 				iter++
-				r.CheckT("S-UnsubscribeAll", fn.Name+":removes", op.Kind == "delete" && op.Map == "rangeval(recv.subscriptions)" && op.Key == P && op.Loop, path.Events[op.Idx].Pos, path,
+				r.CheckT("S-UnsubscribeAll", fn.Name+":removes", op.Kind == "delete" && op.Map == "rangeval(recv.subscriptions)" && op.Key == "param:#0" && op.Loop, path.Events[op.Idx].Pos, path,
 					"the participant is removed from every per-type subscriber set")
 			}
 			for i, ev := range path.Events {
@@ -655,7 +655,7 @@ func ruleBroadcastShape(r *Run) {
 			for _, ev := range path.Events {
 				if ev.Kind == EvCall && ev.Callee == fromProto {
 					enc++
-					r.CheckT("C3", fn.Name+":encode-arg", r.P.Canon(fn, ev.Call.Args[0]) == "param:protoMsg" && !ev.Loop, ev.Pos, path, "the message relayed is the one handed in, encoded once outside the loop")
+					r.CheckT("C3", fn.Name+":encode-arg", r.P.Canon(fn, ev.Call.Args[0]) == "param:#1" && !ev.Loop, ev.Pos, path, "the message relayed is the one handed in, encoded once outside the loop")
 				}
 			}
 			r.CheckT("C3", fn.Name+":encode-once", enc == 1, fn.Body.Pos(), path, "the message is encoded exactly once (%d)", enc)
@@ -682,7 +682,7 @@ func ruleBroadcastShape(r *Run) {
 					pe := path.Events[j]
 					if pe.Kind == EvGuard {
 						g := r.Classify(path, j)
-						if g.Subject == "eq:rangeval(recv.participants)~param:sender" || g.Subject == "eq:param:sender~rangeval(recv.participants)" {
+						if g.Subject == "eq:rangeval(recv.participants)~param:#0" || g.Subject == "eq:param:#0~rangeval(recv.participants)" {
 							isSender = g.Outcome
 						} else {
 							r.CheckT("C3", fn.Name+":other-skip", false, pe.Pos, path, "delivery to a member depends on %s", g)
@@ -691,7 +691,7 @@ func ruleBroadcastShape(r *Run) {
 					if r.isSendMsgCall(pe) {
 						sends++
 						okRecv := r.P.Canon(fn, pe.Recv) == "rangeval(recv.participants).Responder"
-						okMsg := strings.HasPrefix(r.P.Canon(fn, pe.Call.Args[0]), "call:websocket.MsgFromProto(param:protoMsg)")
+						okMsg := strings.HasPrefix(r.P.Canon(fn, pe.Call.Args[0]), "call:websocket.MsgFromProto(param:#1)")
 						r.CheckT("C3", fn.Name+":send", okRecv && okMsg, pe.Pos, path, "each member is sent the encoded message through its own responder")
 					}
 				}
@@ -713,7 +713,7 @@ func ruleBroadcastShape(r *Run) {
 	if fn := r.P.Funcs[m.BroadcastTo]; fn != nil {
 		paths := r.Paths(fn)
 		r.Analysed(fn, len(paths))
-		over := "recv.call:Session.GetParticipantsByIDs(param:participantIds)"
+		over := "recv.call:Session.GetParticipantsByIDs(param:#2)"
 		deliver := 0
 		for pi := range paths {
 			path := &paths[pi]
@@ -741,7 +741,7 @@ func ruleBroadcastShape(r *Run) {
 					if pe.Kind == EvGuard {
 						g := r.Classify(path, j)
 						switch {
-						case strings.HasPrefix(g.Subject, "eq:") && strings.Contains(g.Subject, "param:sender"):
+						case strings.HasPrefix(g.Subject, "eq:") && strings.Contains(g.Subject, "param:#0"):
 							isSender = g.Outcome
 						case strings.HasPrefix(g.Subject, "maplookup:") && strings.HasSuffix(g.Subject, "[rangeval("+over+").ID]"):
 							dup = g.Outcome
@@ -759,7 +759,7 @@ func ruleBroadcastShape(r *Run) {
 					if r.isSendMsgCall(pe) {
 						sends++
 						okRecv := r.P.Canon(fn, pe.Recv) == "rangeval("+over+").Responder"
-						okMsg := strings.HasPrefix(r.P.Canon(fn, pe.Call.Args[0]), "call:websocket.MsgFromProto(param:protoMsg)")
+						okMsg := strings.HasPrefix(r.P.Canon(fn, pe.Call.Args[0]), "call:websocket.MsgFromProto(param:#1)")
 						r.CheckT("C3", fn.Name+":send", okRecv && okMsg, pe.Pos, path, "each named member is sent the encoded message through its own responder")
 					}
 				}
@@ -802,12 +802,12 @@ func ruleBroadcastShape(r *Run) {
 					pe := path.Events[j]
 					if pe.Kind == EvGuard {
 						g := r.Classify(path, j)
-						if g.Subject == "maplookup:recv.participants[rangeval(param:ids)]" {
+						if g.Subject == "maplookup:recv.participants[rangeval(param:#0)]" {
 							hit = g.Outcome
 						}
 					}
 					if pe.Kind == EvCall {
-						if b, ok := pe.Callee.(*types.Builtin); ok && b.Name() == "append" && r.P.Canon(fn, pe.Call.Args[1]) == "recv.participants[rangeval(param:ids)]" {
+						if b, ok := pe.Callee.(*types.Builtin); ok && b.Name() == "append" && r.P.Canon(fn, pe.Call.Args[1]) == "recv.participants[rangeval(param:#0)]" {
 							app = true
 						}
 					}
@@ -926,9 +926,9 @@ func ruleRelaySync(r *Run) {
 					if ss, ok := ev.Node.(*ast.SendStmt); ok {
 						c := r.P.Canon(fn, ss.Value)
 						if q.encode {
-							valOK = c == "call:websocket.MsgFromProto(param:protoMsg)#0"
+							valOK = c == "call:websocket.MsgFromProto(param:#0)#0"
 						} else {
-							valOK = c == "param:msg"
+							valOK = c == "param:#0"
 						}
 					}
 				}
@@ -955,7 +955,7 @@ func ruleRelaySync(r *Run) {
 			for _, ev := range path.Events {
 				if ev.Kind == EvCall && ev.Callee == fld {
 					calls++
-					argOK = len(ev.Call.Args) == 1 && strings.HasPrefix(r.P.Canon(fn, ev.Call.Args[0]), "param:")
+					argOK = len(ev.Call.Args) == 1 && r.P.Canon(fn, ev.Call.Args[0]) == "param:#0"
 				}
 			}
 			r.CheckT("C6", fn.Name+":forwards", calls == 1 && argOK, fn.Body.Pos(), &path, "the responder forwards each message exactly once")
@@ -1052,7 +1052,7 @@ func ruleIDSources(r *Run) {
 			case "Participant":
 				n++
 				c := r.P.Canon(holder, litField(cl, "ID"))
-				r.Check("D5", fn.Name+":participant-id", strings.HasSuffix(c, ".call:Session.NewParticipantID()") && strings.HasPrefix(c, "local:session"), cl.Pos(), "a new participant gets the next participant id of the session it joins (%s)", c)
+				r.Check("D5", fn.Name+":participant-id", strings.HasSuffix(c, ".call:Session.NewParticipantID()") && r.joinSessionCanon(fn) != "" && strings.HasPrefix(c, r.joinSessionCanon(fn)+"."), cl.Pos(), "a new participant gets the next participant id of the session it joins (%s)", c)
 			case "Entity":
 				n++
 				c := r.P.Canon(holder, litField(cl, "ID"))
@@ -1131,7 +1131,7 @@ func ruleRegistry(r *Run) {
 		r.Analysed(fn, 1)
 		for _, path := range r.Paths(fn) {
 			ret := r.retCanon(fn, &path)
-			ok := len(ret) == 2 && ret[0] == "recv.sessions[param:v]" && ret[1] == "recv.sessions[param:v]#1"
+			ok := len(ret) == 2 && ret[0] == "recv.sessions[param:#0]" && ret[1] == "recv.sessions[param:#0]#1"
 			r.CheckT("E7", fn.Name+":verbatim-lookup", ok, fn.Body.Pos(), &path,
 				"a session is found under exactly the id that was asked for, nothing else (returns %v): ids that merely resemble a live session's id must not resolve", ret)
 		}
@@ -1143,7 +1143,7 @@ func ruleRegistry(r *Run) {
 		for _, path := range r.Paths(fn) {
 			held := r.locksAlong(&path, lockset{})
 			ops := r.mapOps(fn, &path)
-			okW := len(ops) == 1 && ops[0].Kind == "write" && ops[0].Map == "recv.sessions" && ops[0].Key == key("param:session.ID") && ops[0].Val == "param:session"
+			okW := len(ops) == 1 && ops[0].Kind == "write" && ops[0].Map == "recv.sessions" && ops[0].Key == key("param:#1.ID") && ops[0].Val == "param:#1"
 			r.CheckT("E7", fn.Name+":insert", okW, fn.Body.Pos(), &path, "Add registers the session under its own global id")
 			iInc := idxOfCall(&path, gaugeInc, 0)
 			okG := iInc >= 0 && len(ops) == 1 && held[iInc]["SessionStore.mutex"] == "W" && held[ops[0].Idx]["SessionStore.mutex"] == "W"
@@ -1164,7 +1164,7 @@ func ruleRegistry(r *Run) {
 		for _, path := range r.Paths(fn) {
 			held := r.locksAlong(&path, lockset{})
 			ops := r.mapOps(fn, &path)
-			okD := len(ops) == 1 && ops[0].Kind == "delete" && ops[0].Map == "recv.sessions" && ops[0].Key == key("param:session.ID")
+			okD := len(ops) == 1 && ops[0].Kind == "delete" && ops[0].Map == "recv.sessions" && ops[0].Key == key("param:#1.ID")
 			r.CheckT("E7", fn.Name+":delete", okD, fn.Body.Pos(), &path, "Remove unregisters exactly the session's own global id")
 			iR, iC, iD := idxOfCall(&path, reuse, 0), idxOfCall(&path, closeF, 0), idxOfCall(&path, gaugeDec, 0)
 			all := okD && iR >= 0 && iC >= 0 && iD >= 0
@@ -1174,8 +1174,8 @@ func ruleRegistry(r *Run) {
 						all = false
 					}
 				}
-				all = all && r.P.Canon(fn, path.Events[iR].Call.Args[0]) == "param:session.ID" && r.P.Canon(fn, path.Events[iR].Recv) == "recv.ids" &&
-					r.P.Canon(fn, path.Events[iC].Recv) == "param:session"
+				all = all && r.P.Canon(fn, path.Events[iR].Call.Args[0]) == "param:#1.ID" && r.P.Canon(fn, path.Events[iR].Recv) == "recv.ids" &&
+					r.P.Canon(fn, path.Events[iC].Recv) == "param:#1"
 			}
 			r.CheckT("E7", fn.Name+":one-critical-section", all, fn.Body.Pos(), &path,
 				"unregistering, stopping the frame worker, releasing the session id and lowering the gauge happen in one critical section, for the session handed in")
@@ -1191,7 +1191,7 @@ func ruleRegistry(r *Run) {
 						f, _ := calleeObj(fn.Info(), call).(*types.Func)
 						tv := fn.Info().Types[call.Args[0]]
 						ok = f != nil && f.FullName() == "fmt.Sprintf" && tv.Value != nil && tv.Value.ExactString() == `"%sx%x"` &&
-							r.P.Canon(fn, call.Args[1]) == "recv.DiscoveryService.call:SessionDiscoveryService.ServerID()" && r.P.Canon(fn, call.Args[2]) == "param:sessionID"
+							r.P.Canon(fn, call.Args[1]) == "recv.DiscoveryService.call:SessionDiscoveryService.ServerID()" && r.P.Canon(fn, call.Args[2]) == "param:#0"
 					}
 				}
 			}
@@ -1224,7 +1224,7 @@ func ruleRegistry(r *Run) {
 							ok = false
 						}
 					}
-					ok = ok && r.P.Canon(fn, litField(lit, "ID")) == "param:id" && strings.Contains(r.P.Canon(fn, litField(lit, "SessionUUID")), "call:uuid.New()") &&
+					ok = ok && r.P.Canon(fn, litField(lit, "ID")) == "param:#0" && strings.Contains(r.P.Canon(fn, litField(lit, "SessionUUID")), "call:uuid.New()") &&
 						r.P.Canon(fn, litField(lit, "entityComponents")) == "call:models.newEntityComponentStore()" &&
 						litField(lit, "participantIDs") == nil && litField(lit, "entityIDs") == nil
 				}
@@ -1369,11 +1369,11 @@ func ruleFramePair(r *Run) {
 			okReg := iHF >= 0
 			if okReg {
 				ev := path.Events[iHF]
-				okReg = r.P.Canon(jf, ev.Call.Args[0]) == "param:handleFrame" && r.isJoinLocalSession(jf, ev.Recv)
+				okReg = r.P.Canon(jf, ev.Call.Args[0]) == "param:#1" && r.isJoinLocalSession(jf, ev.Recv)
 				stored := false
 				for _, pe := range path.Events[iHF:] {
 					if pe.Kind == EvAssign && len(pe.Lhs) == 1 && r.P.Canon(jf, pe.Lhs[0]) == "recv.stopFrameHandling" {
-						stored = strings.Contains(r.P.Canon(jf, pe.Rhs[0]), "call:Session.HandleFrame(param:handleFrame)")
+						stored = strings.Contains(r.P.Canon(jf, pe.Rhs[0]), "call:Session.HandleFrame(param:#1)")
 						break
 					}
 				}
@@ -1389,7 +1389,7 @@ func ruleFramePair(r *Run) {
 			held := r.locksAlong(&path, lockset{})
 			okW := false
 			for _, op := range r.mapOps(fn, &path) {
-				if op.Kind == "write" && op.Map == "recv.frameHandlers" && op.Val == "param:h" && held[op.Idx]["Session.frameMutex"] == "W" {
+				if op.Kind == "write" && op.Map == "recv.frameHandlers" && op.Val == "param:#0" && held[op.Idx]["Session.frameMutex"] == "W" {
 					okW = true
 				}
 			}
